@@ -69,7 +69,11 @@ def check(ctx):
         d = {}
         for k, v, n in asg:
             d.setdefault(k, []).append(v)
-        ok = "abs(start)" in d.get("self.start", []) and "abs(duration)" in d.get("self.duration", []) and \
+        clock = CLOCKS[cn]
+        ok = ("abs(start)" in d.get("self.start", []) or
+              any(v.replace(" ", "") == ("%s if start is None else abs(start)" % clock).replace(" ", "") for v in d.get("self.start", []))) and \
+            ("abs(duration)" in d.get("self.duration", []) or
+             any(v == "self.duration if duration is None else abs(duration)" for v in d.get("self.duration", []))) and \
             d.get("self.stop") == ["self.start + self.duration"]
         stopn = [n for k, v, n in asg if k == "self.stop"]
         others = [n for k, v, n in asg if k in ("self.start", "self.duration")]
